@@ -14,7 +14,7 @@ ID = "C01"
 RULE = ("constructive random grammars (<=5 non-terminals, <=4 alternatives - 6-7 in the '>5 suffix rules' class -, <=4 "
         "symbols per alternative; operators that force common prefixes, prefix-is-itself-an-alternative, nested prefixes, "
         "same-first-token alternatives, empty alternatives; never left-recursive by construction), concrete names from four "
-        "pools in generated order, synonyms and keywords on/off, explicit or default start symbol, both smart_factorization "
+        "pools in generated order, productions declared top-down / bottom-up / shuffled, synonyms and keywords on/off, explicit or default start symbol, both smart_factorization "
         "settings for every case; per grammar 4-10 inputs of <=12 tokens: sampled sentences, one-token mutations and random "
         "token strings, rendered with generated blanks / newlines / comments / multi-line comments, as str or list of lines. "
         "Non-trivial = a returned tree for a grammar that has a common-prefix group or a parse-table conflict; distinct by "
@@ -26,8 +26,14 @@ ASSUMPTIONS = [
 ]
 
 
-def build_parser(L, conc, tokcfg, smart, explicit_start=True):
-    prods = {a: [tuple(alt) for alt in alts] for a, alts in conc["prods"].items()}
+def build_parser(L, conc, tokcfg, smart, explicit_start=True, decl=None):
+    """decl: declaration order of the productions dict - None / 'topdown', 'bottomup' or a list of ints (shuffle key)"""
+    names = list(conc["prods"])
+    if decl == "bottomup":
+        names.reverse()
+    elif isinstance(decl, list):
+        names = [n for _, n in sorted(zip((decl * len(names))[:len(names)], names), key=lambda kv: kv[0])]
+    prods = {a: [tuple(alt) for alt in conc["prods"][a]] for a in names}
     kw = dict(tokcfg)
     if explicit_start or conc["start"] != "E":
         kw["start_symbol_name"] = conc["start"]
@@ -121,7 +127,7 @@ def evaluate(case):
     key_extra = []
     for smart in (True, False):
         try:
-            parser = build_parser(L, conc, tokcfg, smart, case.get("explicit_start", True))
+            parser = build_parser(L, conc, tokcfg, smart, case.get("explicit_start", True), case.get("decl"))
         except L.GrammarIsRecursive:
             classes.add("constructor_rejects_recursive")
             continue
@@ -139,7 +145,7 @@ def evaluate(case):
             tokens = concrete_tokens(conc, inp["toks"])
             text, _pos = gk.render(tokens, inp["seps"])
             src = text.split("\n") if inp.get("as_list") else text
-            kind, res, stt = parse_guarded(L, parser, src, len(tokens), do_cleanup=False)
+            kind, res, stt = parse_guarded(L, parser, src, len(tokens), budget=40000, do_cleanup=False)
             evals += 1
             if kind == "tree":
                 ff = check_tree(res, conc, tokens)
@@ -238,12 +244,14 @@ def st_case(draw, max_tokens=12):
     G = gk.Grammar(g["prods"], g["start"], set(g["terms"]))
     inputs = draw(st_inputs(G, g, draw(st.integers(4, 10)), max_tokens=max_tokens))
     return {"g": g, "pool": draw(st.integers(0, 3)), "perm": draw(st.permutations(list(range(6)))),
-            "syn": draw(st.booleans()), "kw": kw, "explicit_start": draw(st.booleans()), "inputs": inputs}
+            "syn": draw(st.booleans()), "kw": kw, "explicit_start": draw(st.booleans()), "inputs": inputs,
+            "decl": draw(st.sampled_from([None, "bottomup", "shuffle"]).flatmap(
+                lambda d: st.lists(st.integers(0, 9), min_size=6, max_size=6) if d == "shuffle" else st.just(d)))}
 
 
 def parts(tier):
     if tier == "quick":
-        return [Part("grammars", evaluate, strategy=st_case, examples=2500)]
+        return [Part("grammars", evaluate, strategy=st_case, examples=5000)]
     return [Part("grammars", evaluate, strategy=st_case, examples=120000),
             Part("grammars_long_inputs", evaluate, strategy=lambda: st_case(max_tokens=16), examples=40000)]
 
